@@ -91,6 +91,8 @@ def atoms(f, ctx, x, pol, out=None, depth=0):
             ie = f.x(f.skip(init))
             if ie is not None and (ie['k'] == 'binop' and (ie['op'] in NEG or ie['op'] in ('&&', '||')) or (ie['k'] == 'unop' and ie['op'] == '!')):
                 atoms(f, ctx, init, pol, out, depth + 1)
+            elif ie is not None and ie['k'] == 'call' and f.decls[e['decl']]['type'] in ('bool', 'int'):
+                out.append((f.show(init, ctx), pol))     # `bool ok = try_fn(); if (ok)`
     out.append((f.show(x, ctx), pol))
     return out
 
